@@ -236,7 +236,7 @@ def register(kernel):
            model_name="Rbm.p_prob_v_given_ha", tactic=VT % "p_prob_v_given_ha", **pfile)
     # states
     wf = dict(vec=True, imports=["Bits", "Rbm", "States"])
-    kernel("C01", name="amplitude", file="qucumber/nn_states/wavefunction.py", func="WaveFunctionBase.amplitude", inputs=[("v", "v", "BV")],
+    kernel("C01", strict=False, name="amplitude", file="qucumber/nn_states/wavefunction.py", func="WaveFunctionBase.amplitude", inputs=[("v", "v", "BV")],
            atoms=[("self.rbm_am.effective_energy($v)", "(b_eff_energy ROps am $v)", F)],
            coq_params=[("am", "(@brbm R)"), ("v", "bits")], result=F, thm_params=[("am", "(@brbm R)"), ("v", "bits")], gen_args="am v",
            model="amplitude ROps am v", model_name="States.amplitude", tactic=VT % "amplitude", **wf)
@@ -244,7 +244,7 @@ def register(kernel):
            atoms=[("self.rbm_ph.effective_energy($v)", "(b_eff_energy ROps ph $v)", F)],
            coq_params=[("ph", "(@brbm R)"), ("v", "bits")], result=F, thm_params=[("ph", "(@brbm R)"), ("v", "bits")], gen_args="ph v",
            model="cplx_phase ROps ph v", model_name="States.cplx_phase", tactic=VT % "cplx_phase", **wf)
-    kernel("C01", name="psi", file="qucumber/nn_states/wavefunction.py", func="WaveFunctionBase.psi", inputs=[("v", "v", "BV")],
+    kernel("C01", strict=False, name="psi", file="qucumber/nn_states/wavefunction.py", func="WaveFunctionBase.psi", inputs=[("v", "v", "BV")],
            atoms=[("self.amplitude($v)", "(amplitude ROps am $v)", F), ("self.phase($v)", "(cplx_phase ROps ph $v)", F)],
            coq_params=[("am", "(@brbm R)"), ("ph", "(@brbm R)"), ("v", "bits")], result="C",
            thm_params=[("am", "(@brbm R)"), ("ph", "(@brbm R)"), ("v", "bits")], gen_args="am ph v",
@@ -259,7 +259,7 @@ def register(kernel):
 
     # ------------------------------------------------------------------ C02: density-matrix elements
     dm = dict(file="qucumber/nn_states/density_matrix.py", vec=True, pairwise=True, imports=["Bits", "Rbm", "States"])
-    kernel("C02", name="rho", func="DensityMatrix.rho", inputs=[("v", "v", "BV"), ("vp", "vp", "OBV"), ("expand", "expand", B)],
+    kernel("C02", strict=False, name="rho", func="DensityMatrix.rho", inputs=[("v", "v", "BV"), ("vp", "vp", "OBV"), ("expand", "expand", B)],
            atoms=[("self.probability($v)", "(dm_probability ROps am $v (IZR 1))", F),
                   ("self.pi($v, $vp, expand=expand)", "(dm_pi ROps am ph $v $vp)", "C"),
                   ("self.rbm_am.gamma($v, $vp, eta=+1, expand=expand)", "(p_gamma ROps am true $v $vp)", F),
@@ -270,7 +270,7 @@ def register(kernel):
            model="match vp with Some vp' => dm_rho ROps am ph v vp' | None => if expand then dm_rho ROps am ph v v else dm_rho_diag ROps am v end",
            model_name="States.dm_rho / dm_rho_diag (vp=None: the diagonal shortcut when expand is False, else vp = v)",
            tactic="intros am ph v vp expand; cbv [GEN dm_rho dm_rho_diag]; destruct vp, expand; cbn [Bool.eqb andb negb]; tie_vec_norm; tie_vec_close", **dm)
-    kernel("C02", name="pi", func="DensityMatrix.pi", inputs=[("v", "v", "BV"), ("vp", "vp", "BV")], unused_params=["expand"],
+    kernel("C02", strict=False, name="pi", func="DensityMatrix.pi", inputs=[("v", "v", "BV"), ("vp", "vp", "BV")], unused_params=["expand"],
            atoms=[("self.rbm_am.weights_U", "(pU am)", "M"), ("self.rbm_am.aux_bias", "(pd am)", "V"), ("self.rbm_ph.weights_U", "(pU ph)", "M")],
            coq_params=[("am", "(@prbm R)"), ("ph", "(@prbm R)"), ("v", "bits"), ("vp", "bits")], result="C",
            thm_params=[("am", "(@prbm R)"), ("ph", "(@prbm R)"), ("v", "bits"), ("vp", "bits")], gen_args="am ph v vp",
